@@ -332,6 +332,7 @@ PROPS = {
         "units": ["response_parse", "range_parse", "base64_decode", "request_parse"],
         "level": "proof",
         "falsifier": ["parsers"],
+        "always_explore": ["parsers"],
         "case_prefixes": ["c20_"],
         "counts": counts_for("C20"),
         "samples": [
